@@ -1309,16 +1309,28 @@ def partial_reduce(
         recursive aggregation.
     dtype: dtype
         Output data type.
-    combine_sizes: dict(axis: int), optional
+    combine_sizes: dict(axis: int or tuple of ints), optional
         The resulting size of each axis after reduction. Each reduction axis
-        defaults to size one if not specified.
+        defaults to size one if not specified. A tuple gives the size of each
+        combined chunk along the axis explicitly.
     """
     # map over output chunks
     axis = tuple(ax for ax in split_every.keys())
     combine_sizes = combine_sizes or {}
     combine_sizes = {k: combine_sizes.get(k, 1) for k in axis}
+
+    def _combined_chunks(size, num_chunks):
+        # a tuple gives the size of every combined chunk explicitly
+        if isinstance(size, tuple):
+            if len(size) != num_chunks:
+                raise ValueError(
+                    f"combine_sizes {size} must have one entry for each of the {num_chunks} combined chunks"
+                )
+            return size
+        return (size,) * num_chunks
+
     chunks = tuple(
-        (combine_sizes[i],) * math.ceil(len(c) / split_every[i])
+        _combined_chunks(combine_sizes[i], math.ceil(len(c) / split_every[i]))
         if i in split_every
         else c
         for (i, c) in enumerate(x.chunks)
@@ -1665,13 +1677,19 @@ def scan(
         return a
 
     split_size = min(split_every, array.numblocks[axis])
+    # there is one value per block of array, so the last chunk of reduced is
+    # smaller if split_size does not divide the number of blocks
+    nb = array.numblocks[axis]
+    reduced_chunks = (split_size,) * (nb // split_size) + (
+        (nb % split_size,) if nb % split_size else ()
+    )
     reduced = partial_reduce(
         array,
         initial_func=partial(preop, axis=axis, keepdims=True),
         func=identity_func,
         split_every={axis: split_size},
         dtype=dtype,
-        combine_sizes={axis: split_size},
+        combine_sizes={axis: reduced_chunks},
     )
 
     # 3. Now scan `reduced` to generate the increments for each block of `scanned`.
